@@ -137,6 +137,9 @@ def write_evidence(pid, tier, level, coverage, assumptions, wall_s, violations=0
 
 def write_replay(pid, name, payload):
     os.makedirs(REPLAY_DIR, exist_ok=True)
+    import re as _re
+
+    name = _re.sub(r"[^A-Za-z0-9_.-]", "_", name)
     p = os.path.join(REPLAY_DIR, f"{pid}-{name}.json")
     with open(p, "w") as f:
         json.dump(payload, f, indent=1)
